@@ -322,23 +322,29 @@ func VerifC01_resize() {
 
 // VerifC01_gaps: several blocks of one field each with a gap of size changes before every block:
 //
-//	gap, field, end, gap, field, end [, gap, field, end]        gap = 2 calls, each max(v) or limit(v)
+//	quick:    gap(2), field, end, gap(2), field, end
+//	thorough: gap(3), field, end, gap(1), field, end   or   gap(2), field, end, gap(1), field, end, gap(1), field, end
 //
-// Every setter of every gap is chosen (max / limit) and every size is symbolic, so the minimum-size bookkeeping of
-// one gap (shrink and re-grow, through either setter) is followed by further blocks that refill the table and by a
-// second gap whose bookkeeping must start afresh: a size update left over from an earlier, already signalled gap
-// would make the decoder evict entries the encoder keeps. Fields are of kind 0 (34 bytes each); sizes are <= 127
-// (what matters is their order relative to each other and to 34 / 68 / 102 = one, two, three entries).
+// gap(n) = n calls, each max(v) or limit(v). Every setter of every gap is chosen (max / limit) and every size is
+// symbolic, so the minimum-size bookkeeping of one gap (shrink and re-grow, through either setter) is followed by
+// further blocks that refill the table and by a later gap whose bookkeeping must start afresh: a size update left
+// over from an earlier, already signalled gap would make the decoder evict entries the encoder keeps. Fields are of
+// kind 0 (34 bytes each); sizes are <= 127 (what matters is their order relative to each other and to
+// 34 / 68 / 102 = one, two, three entries).
 func VerifC01_gaps() {
-	blocks := 2
+	gaps := []int{2, 2}
 	if vfTier() > 0 {
-		blocks = 3
+		if vfChoice("plan", 2) == 0 {
+			gaps = []int{3, 1} // {3, 3} and three blocks with gaps of 2 are > 2*10^5 paths / 10^6 solver queries
+		} else {
+			gaps = []int{2, 1, 1}
+		}
 	}
 	s := c01new()
 	s.sizeCap = 127
 	reref := false
-	for b := 0; b < blocks; b++ {
-		for g := 0; g < 2; g++ {
+	for b, n := range gaps {
+		for g := 0; g < n; g++ {
 			s.step(2+vfChoice("setter", 2), nil)
 		}
 		nents := len(s.e.dynTab.table.ents)
